@@ -737,7 +737,14 @@ pub fn worker_c15(ctx: &WorkerCtx) -> WorkerOut {
             if i % 7 == 0 {
                 j.style = 1 + (i / 7 % 3) as u8;
             }
-            Some(sp.build(&j))
+            let mut s = sp.build(&j);
+            // seeds at the top of the range (the server's stream is seeded with seed + 1)
+            match i % 97 {
+                3 => s.seed = u64::MAX,
+                5 => s.seed = u64::MAX - 1,
+                _ => {}
+            }
+            Some(s)
         } else {
             // packets-per-second limits 1 and 2, with the product's network delay and with delays
             // (150 ms, 3 s) that exceed the delay the bottleneck adds
